@@ -167,7 +167,7 @@ Section StarVocab.
                 | Some new_ev =>
                     let cf := fst out in
                     let '(no, nc) := get_new_outcomes_and_conditions new_ev outcomes conditions in
-                    (fix scan (todo : event) : list id_result :=
+                    let scan := (fix scan (todo : event) : list id_result :=
                        match todo with
                        | [] => map (fun r => match r with
                                              | IdOk e => match conditions with
@@ -191,12 +191,15 @@ Section StarVocab.
                                                             (filter (fun p => negb (eqb (fst p) (fst c))) nc)
                                     end
                            end
-                       end) nc
+                       end) in
+                    let kept := length (filter (fun p => ev_has new_ev (fst p)) conditions) in
+                    flat_map (fun added => scan (firstn kept nc ++ added)) (permutations (skipn kept nc) (length (skipn kept nc)))
                 end) (make_counterfactual_graph_all (gv g) (dict_merge outcomes conditions) (map V topo))) -> ok_result r).
     { clear Hr. intros Hr. apply in_flat_map in Hr. destruct Hr as [out [_ Hr]].
       destruct (snd out) as [new_ev|]; [|destruct Hr as [<-|[]]; intros e F; injection F as <-; reflexivity].
       cbv zeta in Hr. destruct (get_new_outcomes_and_conditions new_ev outcomes conditions) as [no nc].
-      revert r Hr. generalize nc at 3. intros todo. induction todo as [|c rest IHt]; intros r Hr.
+      apply in_flat_map in Hr. destruct Hr as [added [_ Hr]].
+      revert r Hr. generalize (firstn (length (filter (fun p => ev_has new_ev (fst p)) conditions)) nc ++ added). intros todo. induction todo as [|c rest IHt]; intros r Hr.
       - apply in_map_iff in Hr. destruct Hr as [r0 [<- Hr0]]. pose proof (id_star_single_world _ _ _ Hr0) as H0.
         destruct r0 as [e0| |k0]; try (intros e F; discriminate).
         destruct conditions as [|c0 ct]; [exact H0|].
